@@ -3,6 +3,7 @@ CONSTANTS
   Phase = 0
   AllCombos = FALSE
   WithBase = TRUE
+  CfgAll = TRUE
 INIT Init
 NEXT Next
 INVARIANT ExportCase
